@@ -850,3 +850,378 @@ Proof.
   rewrite IH; [apply vstep_frame; assumption | | exact F'].
   pose proof (vstep_length v o). lia.
 Qed.
+
+(* ================================================================ D4. the abstract specification: finite maps name -> handler
+   A module is a function name -> option binding; the registry is a number of modules N and a function from module
+   index to such a map.  This restates the property text and does not mention lists, heaps or sharing. *)
+Definition amap := name -> option binding.
+Definition bmap := nat -> amap.
+
+Definition a_set (f : amap) (n : name) (v : option binding) : amap := fun k => if bytes_eqb k n then v else f k.
+
+Definition a_insert (f : amap) (n : name) (b : binding) : amap * option rerr :=
+  match f n with
+  | Some _ => (f, Some (AlreadyRegistered n))
+  | None => (a_set f n (Some b), None)
+  end.
+
+Definition a_register (f : amap) (r : reg) : amap * option rerr :=
+  match r with
+  | RMethod n h => a_insert f n (Bind h KSync)
+  | RAsync n h => a_insert f n (Bind h KAsync)
+  | RBlocking n h => a_insert f n (Bind h KBlocking)
+  | RSub _ sn un h =>
+    if bytes_eqb sn un then (f, Some (SubscriptionNameConflict sn)) else
+    match f sn with
+    | Some _ => (f, Some (AlreadyRegistered sn))
+    | None =>
+      match f un with
+      | Some _ => (f, Some (AlreadyRegistered un))
+      | None => (a_set (a_set f un (Some (Bind h KUnsub))) sn (Some (Bind h KSub)), None)
+      end
+    end
+  end.
+
+Definition a_alias (f : amap) (a e : name) : amap * option rerr :=
+  match f a with
+  | Some _ => (f, Some (AlreadyRegistered a))
+  | None =>
+    match f e with
+    | None => (f, Some (MethodNotFound e))
+    | Some b => (a_set f a (Some b), None)
+    end
+  end.
+
+Fixpoint a_build (f : amap) (rs : list reg) : amap * list (option rerr) :=
+  match rs with
+  | [] => (f, [])
+  | r :: rs' =>
+    let (f1, e) := a_register f r in
+    let (f2, es) := a_build f1 rs' in (f2, e :: es)
+  end.
+
+(* merging g into f gives f' and the result e: fails (with some shared name) iff a name is bound in both, and then
+   nothing changes; otherwise f' is f plus every binding of g *)
+Definition a_merge_spec (f g f' : amap) (e : option rerr) : Prop :=
+  (exists n, e = Some (AlreadyRegistered n) /\ f n <> None /\ g n <> None /\ forall k, f' k = f k)
+  \/ (e = None /\ (forall n, f n = None \/ g n = None)
+      /\ forall k, f' k = match g k with Some b => Some b | None => f k end).
+
+(* module m now holds f'; every other module is as before *)
+Definition only_changes (B B' : bmap) (m : nat) (f' : amap) : Prop :=
+  (forall k, B' m k = f' k) /\ forall m', m' <> m -> forall k, B' m' k = B m' k.
+Definition same (B B' : bmap) : Prop := forall m k, B' m k = B m k.
+
+Definition spec_step (N : nat) (B : bmap) (o : op) (N' : nat) (B' : bmap) (ob : obs) : Prop :=
+  match o with
+  | Reg m r =>
+    if (m <? N) then N' = N /\ ob = ORes (snd (a_register (B m) r)) /\ only_changes B B' m (fst (a_register (B m) r))
+    else N' = N /\ ob = OBad /\ same B B'
+  | Alias m a e =>
+    if (m <? N) then N' = N /\ ob = ORes (snd (a_alias (B m) a e)) /\ only_changes B B' m (fst (a_alias (B m) a e))
+    else N' = N /\ ob = OBad /\ same B B'
+  | MergeMod m j =>
+    if (m <? N) && (j <? N) then
+      N' = N /\ exists e, ob = ORes e /\ a_merge_spec (B m) (B j) (B' m) e /\ forall m', m' <> m -> forall k, B' m' k = B m' k
+    else N' = N /\ ob = OBad /\ same B B'
+  | MergeNew m rs =>
+    if (m <? N) then
+      N' = N /\ exists e, ob = OMergeNew (snd (a_build (fun _ => None) rs)) e
+        /\ a_merge_spec (B m) (fst (a_build (fun _ => None) rs)) (B' m) e
+        /\ forall m', m' <> m -> forall k, B' m' k = B m' k
+    else N' = N /\ ob = OBad /\ same B B'
+  | Remove m n =>
+    if (m <? N) then N' = N /\ ob = ORemoved (B m n) /\ only_changes B B' m (a_set (B m) n None)
+    else N' = N /\ ob = OBad /\ same B B'
+  | Clone m =>
+    if (m <? N) then N' = S N /\ ob = OHandle N /\ only_changes B B' N (B m)
+    else N' = N /\ ob = OBad /\ same B B'
+  | New => N' = S N /\ ob = OHandle N /\ only_changes B B' N (fun _ => None)
+  | Call m n =>
+    if (m <? N) then N' = N /\ ob = OCall (B m n) /\ same B B'
+    else N' = N /\ ob = OBad /\ same B B'
+  end.
+
+Definition agrees (f : amap) (ms : methods) : Prop := forall k, f k = lookup k ms.
+
+Lemma a_insert_agrees f ms n b : agrees f ms ->
+  agrees (fst (a_insert f n b)) (fst (v_insert ms n b)) /\ snd (a_insert f n b) = snd (v_insert ms n b).
+Proof.
+  intro A. unfold a_insert, v_insert. rewrite (A n). destruct (lookup n ms); cbn; split; auto.
+  intro k. unfold a_set. rewrite lookup_hm_insert, (A k). reflexivity.
+Qed.
+
+Lemma a_register_agrees f ms r : agrees f ms ->
+  agrees (fst (a_register f r)) (fst (v_register ms r)) /\ snd (a_register f r) = snd (v_register ms r).
+Proof.
+  intro A. destruct r as [n h|n h|n h|raw sn un h]; cbn [a_register v_register]; try (apply a_insert_agrees, A).
+  beq sn un; [cbn; auto|].
+  unfold contains_key. rewrite (A sn), (A un).
+  destruct (lookup sn ms) eqn:Ls; [cbn; auto|].
+  destruct (lookup un ms) eqn:Lu; [cbn; auto|].
+  unfold v_insert. rewrite lookup_hm_insert. beq sn un; [contradiction|]. rewrite Ls. cbn. split; auto.
+  intro k. unfold a_set. rewrite !lookup_hm_insert, (A k). reflexivity.
+Qed.
+
+Lemma a_alias_agrees f ms a e : agrees f ms ->
+  agrees (fst (a_alias f a e)) (fst (v_alias ms a e)) /\ snd (a_alias f a e) = snd (v_alias ms a e).
+Proof.
+  intro A. unfold a_alias, v_alias, contains_key. rewrite (A a), (A e).
+  destruct (lookup a ms); [cbn; auto|]. destruct (lookup e ms); cbn; split; auto.
+  intro k. unfold a_set. rewrite lookup_hm_insert, (A k). reflexivity.
+Qed.
+
+Lemma a_build_agrees rs : forall f ms, agrees f ms ->
+  agrees (fst (a_build f rs)) (fst (v_build ms rs)) /\ snd (a_build f rs) = snd (v_build ms rs).
+Proof.
+  induction rs as [|r rs IH]; intros f ms A; cbn; [auto|].
+  destruct (a_register_agrees f ms r A) as [A1 E1].
+  destruct (a_register f r) as [f1 e1]. destruct (v_register ms r) as [ms1 e1']. cbn [fst snd] in *. subst e1'.
+  destruct (IH f1 ms1 A1) as [A2 E2].
+  destruct (a_build f1 rs) as [f2 es]. destruct (v_build ms1 rs) as [ms2 es']. cbn [fst snd] in *. subst. auto.
+Qed.
+
+Lemma a_merge_agrees ms other : NoDup (keys other) ->
+  a_merge_spec (fun k => lookup k ms) (fun k => lookup k other)
+               (fun k => lookup k (fst (v_merge ms other))) (snd (v_merge ms other)).
+Proof.
+  intro ND. unfold a_merge_spec.
+  destruct (snd (v_merge ms other)) as [e|] eqn:S.
+  - left. destruct (v_merge_err _ _ _ S) as (E & n & -> & Hin & Hms). exists n. repeat split; auto.
+    + apply (proj2 (lookup_none_iff n other)) in Hin || (intro Hn; apply lookup_none_iff in Hn; contradiction).
+    + intro k. rewrite E. reflexivity.
+  - right. destruct (v_merge_ok _ _ ND S) as (E & Hd). repeat split; auto.
+    + intro n. destruct (lookup n other) eqn:Lo; [left | right; reflexivity].
+      apply Hd. apply lookup_some_in in Lo. apply (in_map fst) in Lo. exact Lo.
+    + intro k. rewrite E, lookup_app.
+      destruct (lookup k other) eqn:Lo.
+      * rewrite Hd; [reflexivity|]. apply lookup_some_in in Lo. apply (in_map fst) in Lo. exact Lo.
+      * destruct (lookup k ms); reflexivity.
+Qed.
+
+Lemma bind_upd_same v m x : m < length v -> forall k, bind_of (upd m (fun _ => x) v) m k = lookup k x.
+Proof. intros Hm k. unfold bind_of. rewrite nth_upd_eq by exact Hm. reflexivity. Qed.
+
+Lemma bind_upd_other v m x m' : m' <> m -> forall k, bind_of (upd m (fun _ => x) v) m' k = bind_of v m' k.
+Proof. intros Hne k. unfold bind_of. rewrite nth_upd_neq by exact Hne. reflexivity. Qed.
+
+Lemma bind_app_new v x : forall k, bind_of (v ++ [x]) (length v) k = lookup k x.
+Proof. intro k. unfold bind_of. rewrite app_nth2, Nat.sub_diag by lia. reflexivity. Qed.
+
+Lemma bind_app_old v x m' : m' <> length v -> forall k, bind_of (v ++ [x]) m' k = bind_of v m' k.
+Proof.
+  intros Hne k. unfold bind_of. destruct (Nat.lt_ge_cases m' (length v)) as [L|L].
+  - rewrite app_nth1 by exact L. reflexivity.
+  - rewrite !nth_overflow; [reflexivity | exact L | rewrite app_length; cbn; lia].
+Qed.
+
+Lemma vstep_spec v o : nodup_all v ->
+  spec_step (length v) (bind_of v) o (length (fst (vstep v o))) (bind_of (fst (vstep v o))) (snd (vstep v o)).
+Proof.
+  intro ND.
+  assert (forall m, NoDup (keys (nth m v []))) as Hn by (intro m; apply Forall_nth_d; [exact ND | constructor]).
+  assert (forall m, agrees (bind_of v m) (nth m v [])) as Ag by (intros m k; reflexivity).
+  destruct o as [m r|m a e|m j|m rs|m n|m| |m n]; cbn [vstep spec_step].
+  - destruct (Nat.ltb_spec m (length v)) as [Hm|Hm]; [|cbn; repeat split; auto].
+    destruct (a_register_agrees _ _ r (Ag m)) as [A1 E1].
+    destruct (v_register (nth m v []) r) as [ms e]. cbn [fst snd] in *. rewrite length_upd. repeat split; auto.
+    + congruence.
+    + intro k. rewrite bind_upd_same by exact Hm. symmetry. apply A1.
+    + intros m' Hne k. apply bind_upd_other, Hne.
+  - destruct (Nat.ltb_spec m (length v)) as [Hm|Hm]; [|cbn; repeat split; auto].
+    destruct (a_alias_agrees _ _ a e (Ag m)) as [A1 E1].
+    destruct (v_alias (nth m v []) a e) as [ms er]. cbn [fst snd] in *. rewrite length_upd. repeat split; auto.
+    + congruence.
+    + intro k. rewrite bind_upd_same by exact Hm. symmetry. apply A1.
+    + intros m' Hne k. apply bind_upd_other, Hne.
+  - destruct (Nat.ltb_spec m (length v)) as [Hm|Hm]; cbn [andb]; [|cbn; repeat split; auto].
+    destruct (j <? length v); [|cbn; repeat split; auto].
+    pose proof (a_merge_agrees (nth m v []) (nth j v []) (Hn j)) as M.
+    destruct (v_merge (nth m v []) (nth j v [])) as [ms e]. cbn [fst snd] in *. rewrite length_upd. split; auto.
+    exists e. repeat split; auto.
+    + unfold a_merge_spec in *. destruct M as [(n & -> & H1 & H2 & H3)|(-> & H1 & H2)]; [left | right].
+      * exists n. repeat split; auto. intro k. rewrite bind_upd_same by exact Hm. apply H3.
+      * repeat split; auto. intro k. rewrite bind_upd_same by exact Hm. apply H2.
+    + intros m' Hne k. apply bind_upd_other, Hne.
+  - destruct (Nat.ltb_spec m (length v)) as [Hm|Hm]; [|cbn; repeat split; auto].
+    destruct (a_build_agrees rs (fun _ => None) [] (fun k => eq_refl)) as [A1 E1].
+    pose proof (v_build_nodup rs [] (NoDup_nil _)) as NB.
+    destruct (v_build [] rs) as [other es]. cbn [fst snd] in *.
+    pose proof (a_merge_agrees (nth m v []) other NB) as M.
+    destruct (v_merge (nth m v []) other) as [ms e]. cbn [fst snd] in *. rewrite length_upd. split; auto.
+    exists e. rewrite E1. repeat split; auto.
+    + unfold a_merge_spec in *. destruct M as [(n & -> & H1 & H2 & H3)|(-> & H1 & H2)]; [left | right].
+      * exists n. repeat split; auto; [rewrite (A1 n); exact H2|]. intro k. rewrite bind_upd_same by exact Hm. apply H3.
+      * repeat split; auto.
+        -- intro n. rewrite (A1 n). apply H1.
+        -- intro k. rewrite bind_upd_same by exact Hm. rewrite (A1 k). apply H2.
+    + intros m' Hne k. apply bind_upd_other, Hne.
+  - destruct (Nat.ltb_spec m (length v)) as [Hm|Hm]; [|cbn; repeat split; auto].
+    cbn [fst snd]. rewrite length_upd. repeat split; auto.
+    + intro k. rewrite bind_upd_same by exact Hm. unfold a_set. rewrite lookup_hm_remove. reflexivity.
+    + intros m' Hne k. apply bind_upd_other, Hne.
+  - destruct (Nat.ltb_spec m (length v)) as [Hm|Hm]; [|cbn; repeat split; auto].
+    cbn [fst snd]. rewrite app_length; cbn. repeat split; auto; [lia | |].
+    + intro k. apply bind_app_new.
+    + intros m' Hne k. apply bind_app_old, Hne.
+  - cbn [fst snd]. rewrite app_length; cbn. repeat split; auto; [lia | |].
+    + intro k. apply bind_app_new.
+    + intros m' Hne k. apply bind_app_old, Hne.
+  - destruct (Nat.ltb_spec m (length v)) as [Hm|Hm]; cbn; repeat split; auto.
+Qed.
+
+(* ================================================================ D5. the statements, on the heap-level model, for every op sequence *)
+Definition bind (s : state) : bmap := bind_of (view s).
+
+Lemma bind_get s m n : bind s m n = lookup n (get s m).
+Proof. unfold bind, bind_of. rewrite get_view. reflexivity. Qed.
+
+Lemma view_init : view init = [[]].
+Proof. reflexivity. Qed.
+
+Lemma reach_inv os : wf (exec init os) /\ nodup_all (view (exec init os)).
+Proof.
+  destruct (exec_refines init os wf_init) as [W V]. split; [exact W|].
+  rewrite V. apply vexec_nodup. rewrite view_init. constructor; [constructor | constructor].
+Qed.
+
+Lemma names_unique : forall os m, NoDup (keys (get (exec init os) m)).
+Proof.
+  intros os m. destruct (reach_inv os) as [_ ND]. rewrite get_view.
+  apply Forall_nth_d; [exact ND | constructor].
+Qed.
+
+Lemma refines_map_spec : forall os o, let s := exec init os in
+  spec_step (nmods s) (bind s) o (nmods (fst (step s o))) (bind (fst (step s o))) (snd (step s o)).
+Proof.
+  intros os o s. destruct (reach_inv os) as [W ND]. fold s in W, ND.
+  destruct (step_refines s o W) as (_ & V & O).
+  unfold bind. rewrite <- !length_view, V, O. apply vstep_spec, ND.
+Qed.
+
+Lemma success_adds_exactly : forall os o, let s := exec init os in
+  is_registration o -> succeeded (snd (step s o)) ->
+  exists m, writes o = Some m /\ m < nmods s /\
+    view (fst (step s o)) = upd m (fun ms => ms ++ added (view s) o) (view s) /\
+    (forall n, In n (keys (added (view s) o)) -> bind s m n = None) /\
+    NoDup (keys (added (view s) o)).
+Proof.
+  intros os o s Hreg S. destruct (reach_inv os) as [W ND]. fold s in W, ND.
+  destruct (step_refines s o W) as (_ & V & O). rewrite O in S. rewrite V, <- length_view.
+  apply vstep_success; assumption.
+Qed.
+
+Lemma failure_is_identity : forall os o, let s := exec init os in
+  failed (snd (step s o)) -> view (fst (step s o)) = view s.
+Proof.
+  intros os o s F. destruct (reach_inv os) as [W _]. fold s in W.
+  destruct (step_refines s o W) as (_ & V & O). rewrite O in F. rewrite V. apply vstep_failure, F.
+Qed.
+
+(* the operations whose checks all come before the first mut_callbacks(): a failure leaves even the heap untouched *)
+Definition checks_first (o : op) : Prop :=
+  match o with
+  | Reg _ (RSub _ _ _ _) | Alias _ _ _ | MergeMod _ _ | MergeNew _ _ => True
+  | _ => False
+  end.
+
+Lemma step_failure_heap s o : wf s -> checks_first o -> failed (snd (step s o)) -> fst (step s o) = s.
+Proof.
+  intros W C. destruct o as [m r|m a e|m j|m rs|m n|m| |m n]; cbn [checks_first] in C; try contradiction; unfold step, valid.
+  - destruct r as [n h|n h|n h|raw sn un h]; try contradiction.
+    destruct (Nat.ltb_spec m (nmods s)) as [Hm|Hm]; [|cbn; contradiction].
+    destruct (register_refines s m (RSub raw sn un h) W Hm) as (_ & _ & R). revert R.
+    cbn [register v_register]. unfold verify_method_name.
+    beq sn un; [cbn; auto|].
+    destruct (contains_key sn (get s m)) eqn:Cs; [cbn; auto|].
+    destruct (contains_key un (get s m)) eqn:Cu; [cbn; auto|].
+    unfold v_insert. rewrite lookup_hm_insert. beq sn un; [contradiction|].
+    apply contains_key_false in Cs. rewrite Cs. cbn [snd].
+    destruct (verify_and_insert (mut_insert s m un (Bind h KUnsub)) m sn (Bind h KSub)) as [s1 e1]. cbn.
+    intros ->. cbn. contradiction.
+  - destruct (m <? nmods s); [|cbn; contradiction].
+    unfold register_alias, verify_method_name. destruct (contains_key a (get s m)); [cbn; auto|].
+    destruct (lookup e (get s m)); cbn; [contradiction | auto].
+  - destruct ((m <? nmods s) && (j <? nmods s)); [|cbn; contradiction].
+    unfold merge. destruct (first_clash (get s m) (map fst (get s j))); [cbn; auto|].
+    destruct (make_mut s m (Some (cell_of s j))); cbn; contradiction.
+  - destruct (m <? nmods s); [|cbn; contradiction].
+    destruct (build rs) as [other es]. unfold merge. destruct (first_clash (get s m) (map fst other)); [cbn; auto|].
+    destruct (make_mut s m None); cbn; contradiction.
+Qed.
+
+Lemma failure_is_identity_heap : forall os o, let s := exec init os in
+  checks_first o -> failed (snd (step s o)) -> fst (step s o) = s.
+Proof. intros os o s. apply step_failure_heap, reach_inv. Qed.
+
+Lemma dispatch : forall os m n, let s := exec init os in
+  step s (Call m n) = (s, if (m <? nmods s) then OCall (bind s m n) else OBad).
+Proof.
+  intros os m n s. unfold step, valid. destruct (m <? nmods s); [|reflexivity]. rewrite bind_get. reflexivity.
+Qed.
+
+Lemma not_found_iff_unbound : forall os m n, let s := exec init os in
+  m < nmods s -> (snd (step s (Call m n)) = OCall None <-> ~ In n (keys (get s m))).
+Proof.
+  intros os m n s Hm. unfold step, valid. destruct (Nat.ltb_spec m (nmods s)); [|lia]. cbn [snd].
+  rewrite <- lookup_none_iff. split; [intro HH; inversion HH; reflexivity | intros ->; reflexivity].
+Qed.
+
+Lemma binding_stable : forall os o m n b, let s := exec init os in
+  bind s m n = Some b -> o <> Remove m n -> bind (fst (step s o)) m n = Some b.
+Proof.
+  intros os o m n b s Hb Hne. destruct (reach_inv os) as [W ND]. fold s in W, ND.
+  destruct (step_refines s o W) as (_ & V & _). unfold bind in *. rewrite V. apply vstep_stable; assumption.
+Qed.
+
+Lemma frame : forall os os2 k, let s := exec init os in
+  k < nmods s -> Forall (fun o => writes o <> Some k) os2 -> get (exec s os2) k = get s k.
+Proof.
+  intros os os2 k s Hk F. destruct (reach_inv os) as [W _]. fold s in W.
+  destruct (exec_refines s os2 W) as [_ V]. rewrite !get_view, V. apply vexec_frame; [rewrite length_view; exact Hk | exact F].
+Qed.
+
+Lemma clone_isolated : forall os m os2, let s := exec init os in
+  m < nmods s ->
+  let s1 := fst (step s (Clone m)) in
+  let c := nmods s in
+  get s1 c = get s m /\
+  (Forall (fun o => writes o <> Some c) os2 -> get (exec s1 os2) c = get s m) /\
+  (Forall (fun o => writes o <> Some m) os2 -> get (exec s1 os2) m = get s m).
+Proof.
+  intros os m os2 s Hm s1 c.
+  assert (s1 = exec init (os ++ [Clone m])) as E1 by (unfold s1, s; rewrite exec_snoc; reflexivity).
+  assert (nmods s1 = S c /\ get s1 c = get s m /\ get s1 m = get s m) as (N1 & Gc & Gm).
+  { destruct (reach_inv os) as [W _]. fold s in W.
+    destruct (step_refines s (Clone m) W) as (_ & V & _). fold s1 in V. cbn [vstep] in V. rewrite length_view in V.
+    destruct (Nat.ltb_spec m (nmods s)); [|lia]. cbn [fst] in V.
+    assert (length (view s) = c) as Lc by apply length_view.
+    repeat split.
+    - rewrite <- length_view, V, app_length, Lc. cbn. lia.
+    - rewrite !get_view, V, app_nth2, Lc, Nat.sub_diag by lia. reflexivity.
+    - rewrite !get_view, V, app_nth1 by lia. reflexivity. }
+  split; [exact Gc|]. split; intro F.
+  - rewrite <- Gc. rewrite E1. apply frame; [rewrite <- E1; lia | exact F].
+  - rewrite <- Gm. rewrite E1. apply frame; [rewrite <- E1; unfold c in N1; lia | exact F].
+Qed.
+
+(* ================================================================ E. what the extracted driver prints *)
+Lemma trace_from_snoc os : forall s o,
+  trace_from s (os ++ [o]) = trace_from s os ++ [(snd (step (exec s os) o), dump (exec s (os ++ [o])))].
+Proof.
+  induction os as [|o1 os IH]; intros s o; cbn.
+  - destruct (step s o); reflexivity.
+  - destruct (step s o1) as [s1 ob1] eqn:E. cbn. f_equal.
+    replace (fold_left (fun s0 o0 => fst (step s0 o0)) os (fst (step s o1))) with (exec s1 os) by (rewrite E; reflexivity).
+    replace (fold_left (fun s0 o0 => fst (step s0 o0)) (os ++ [o]) (fst (step s o1))) with (exec s1 (os ++ [o])) by (rewrite E; reflexivity).
+    apply IH.
+Qed.
+
+Lemma run_trace_snoc : forall os o,
+  run_trace (os ++ [o]) = run_trace os ++ [(snd (step (exec init os) o), dump (exec init (os ++ [o])))].
+Proof. intros. apply trace_from_snoc. Qed.
+
+Lemma dump_perm : forall s, Forall2 (@Permutation (name * binding)) (dump s) (view s).
+Proof.
+  intro s. unfold dump. induction (view s) as [|ms v IH]; cbn; constructor; [apply sort_methods_perm | exact IH].
+Qed.
